@@ -251,7 +251,9 @@ def _sets_case(draw, tier):
                 np_obs=draw(st.sampled_from([False, False, True])))
 
 
-_PNAMES = ["snr", "alpha", "Zeta", "p"]
+# (names with numbers of different digit counts: 'p10' sorts before 'p2' as
+# a string, after it in a natural sort; upper case sorts before lower case)
+_PNAMES = ["snr", "alpha", "Zeta", "p", "p2", "p10", "x9", "x10"]
 
 
 @st.composite
